@@ -512,7 +512,7 @@ pub fn run(ctx: &Ctx, rep: &Report) -> Meta {
                deserialize_and_validate_commit, blind_sign, proof_gen, blind_proof_gen; decoded objects handed on to the verifiers; (2) honest artefacts with generated index lists / counts over the whole usize range \
                (small, 2^32, 2^63, usize::MAX-7..usize::MAX), sorted or not, with duplicates, mismatched lengths, None spellings, into proof_gen, proof_verify, blind_proof_gen, blind_proof_verify (L), update_signature (index, n), verify, verify_blind_sign, sign, commit; \
                (3) mutated honest JSON of every serde type, decoded objects handed on; thorough adds a libFuzzer campaign over a structured target. \
-               Oracle: the call returns (Ok or Err) under catch_unwind in a build with overflow checks, within a generator budget of 4*(input units)+16 (hook H1); \
+               a cold-start contention phase (all workers calling sign / verify / proof_gen / proof_verify / commit with 3..130 messages at once) and the byte-level entry function of the libFuzzer target run in-process on its seed corpus and on pseudo-random bytes; Oracle: the call returns (Ok or Err) under catch_unwind in a build with overflow checks, within a generator budget of 4*(input units)+16 (hook H1); \
                non-trivial = input that is not an honest encoding with in-range indexes; evaluations = entry-point calls"
             .into(),
         assumptions: vec![
